@@ -280,7 +280,7 @@ def gen (rng, n, maxlen):
 def plan (tier, seed):
   if tier == "quick":
     return [dict(n=400, maxlen=20, sub=i) for i in range(16)]
-  return [dict(n=10000, maxlen=60, sub=i) for i in range(32)]
+  return [dict(n=30000, maxlen=60, sub=i) for i in range(48)]
 
 
 def run (spec, rep):
